@@ -142,6 +142,10 @@ var LeakGrace = 10 * time.Second
 // option set: an engine instance is meant to be long-lived and shared.
 var CountPaths = false
 
+// DistFaults injects faults into the stores of the remote engines of a distributed
+// case (index = engine number).
+var DistFaults map[int][]mstore.Fault
+
 var engCache = map[Opts]queryEngine{}
 var refCache = map[Opts]*promql.Engine{}
 
@@ -183,6 +187,7 @@ func BuildEngine(c *Case, reg prometheus.Registerer) (queryEngine, []*mstore.Sto
 		if err != nil {
 			return nil, nil, err
 		}
+		st.Faults = DistFaults[len(stores)]
 		stores = append(stores, st)
 		remotes = append(remotes, engine.NewLocalEngine(ro, st))
 	}
@@ -210,7 +215,7 @@ func RunEngineCtx(ctx context.Context, c *Case, st *mstore.Store, withQuery func
 	if reg != nil {
 		regi = reg
 	}
-	eng, _, err := BuildEngine(c, regi)
+	eng, remoteStores, err := BuildEngine(c, regi)
 	if err != nil {
 		out.Res.CreateErr = "harness: " + err.Error()
 		return out
@@ -245,6 +250,9 @@ func RunEngineCtx(ctx context.Context, c *Case, st *mstore.Store, withQuery func
 	ctx, cancel := context.WithCancel(ctx)
 	defer cancel()
 	st.Cancel = cancel
+	for _, rs := range remoteStores {
+		rs.Cancel = cancel
+	}
 	if withQuery != nil {
 		withQuery(q, cancel)
 	}
@@ -574,10 +582,19 @@ func Features(c *Case) []string {
 				f["call:scalar|vector"] = true
 			}
 			if x.Func.Name == "scalar" {
-				if vs, ok := x.Args[0].(*parser.VectorSelector); ok {
-					if !selectorMatchesAny(vs, c) {
-						f["scalar:arg-no-series"] = true
+				// every selector below the argument matches no series
+				n, none := 0, true
+				parser.Inspect(x.Args[0], func(nd parser.Node, _ []parser.Node) error {
+					if vs, ok := nd.(*parser.VectorSelector); ok {
+						n++
+						if selectorMatchesAny(vs, c) {
+							none = false
+						}
 					}
+					return nil
+				})
+				if n > 0 && none {
+					f["scalar:arg-no-series"] = true
 				}
 			}
 			if x.Func.Name == "clamp" {
